@@ -449,9 +449,10 @@ pub fn run(cfg: &Config) -> i32 {
             Some((mt.clone(), (text[..i].to_string(), text[i + b4.len()..].to_string())))
         }).collect();
         for lay in layout::layouts() {
-            for max_seq in [5usize, 40, 150] {
-                let mut r = crate::rng::Rng::new(cfg.seed, &format!("c12-long:{}", lay.mt), max_seq as u64);
-                let opt = GenOptions { optional_per_mille: 500, max_repeat: 2, max_seq, maximal: true, minimal: false };
+            for (vi, max_seq) in [(0u64, 40usize), (1, 150), (2, 150), (3, 400)] {
+                let mut r = crate::rng::Rng::new(cfg.seed, &format!("c12-long:{}", lay.mt), vi);
+                // (the generator draws the occurrence count between the minimum and max_seq)
+                let opt = GenOptions { optional_per_mille: 900, max_repeat: 3, max_seq, maximal: false, minimal: false };
                 let mut g = Gen { r: &mut r, counter: 3, mt: lay.mt, opt, force_option: None, force_include: None };
                 let mut sink = Local::default();
                 let Some(mut w) = super::c03::build(&lay, &mut g, &mut sink, "c12-long") else { continue };
@@ -462,6 +463,9 @@ pub fn run(cfg: &Config) -> i32 {
                 let toks: Vec<tok::Token> = w.fields.iter().map(|f| tok::Token { tag: f.tag.clone(), content: f.content.clone() }).collect();
                 let text = format!("{pre}\n{}\n{post}", tok::render(&toks, false, false));
                 // only messages the typed parser takes (documented repetition caps reject the longest ones)
+                if std::env::var("VERIF_DEBUG").is_ok() {
+                    eprintln!("c12-long MT{} max_seq={max_seq}/{vi} len={} accepted={:?}", lay.mt, text.len(), msg(lay.mt).map(|o| (o.parse_full)(&text).map(|_| ()).map_err(|e| e.to_string().chars().take(80).collect::<String>())));
+                }
                 if let Some(ops) = msg(lay.mt)
                     && matches!(guard(|| (ops.parse_full)(&text)), Ok(Ok(_)))
                 {
